@@ -786,7 +786,7 @@ def _frange(spec):
 
 def _g18(ctx):
     """The search routines decided BY VALUE on model primitives: compute_config of XilinxClocking (all Xilinx PLL / MMCM classes inherit
-    it) and iCE40PLL interpreted (lxs/pyconst.py) with small model ranges -- the routines read every range from `self`,
+    it), iCE40PLL and IntelClocking interpreted (lxs/pyconst.py) with small model ranges -- the routines read every range from `self`,
     so a model primitive exercises them exactly like a real one, at a cost that lets the checker enumerate the whole space itself:
     a returned configuration, recomputed from its own multipliers and dividers, lies inside the ranges and the VCO window and meets
     every request within its margin; a request is refused exactly when the enumeration finds no setting."""
@@ -795,7 +795,16 @@ def _g18(ctx):
     common = ctx.mod(D + "common.py")
     cfuncs = {f.name: f for f in common.tree.body if isinstance(f, ast.FunctionDef)}
     import math as _math
-    consts = {"compute_config_log": Native(lambda *a, **k: None), "float": Native(float)}
+    import functools as _ft
+    import operator as _op
+
+    def _reduce(f_, vals, init=None):
+        try:
+            return _ft.reduce(f_, vals, init) if init is not None else _ft.reduce(f_, vals)
+        except TypeError:
+            raise pyconst.Raised()          # the real routine would stop with a TypeError here
+    consts = {"compute_config_log": Native(lambda *a, **k: None), "float": Native(float), "mul": _op.mul,
+              "reduce": Native(_reduce)}
     EPS = 1e-9
 
     def close(a, b):
@@ -902,6 +911,9 @@ def _g18(ctx):
           for ci in (100e6, 50e6) for vm in (0, 0.1) for extra in ({}, {"clkout0_divide_range": (2, 4, 0.125)})]),
         ("lattice_ice40.py", "iCE40PLL", ice_solutions, ice_verify, single,
          [dict(divr_range=(0, 3), divf_range=(0, 12), divq_range=(1, 5), vco_freq_range=(400e6, 800e6), clkin_freq=ci) for ci in (100e6, 48e6, 12e6)]),
+        ("intel_common.py", "IntelClocking", intel_solutions, intel_verify, single + multi,
+         [dict(n_div_range=(1, 4), m_div_range=(1, 10), c_div_range=(1, 9), vco_freq_range=(400e6, 800e6), clkin_pfd_freq_range=(20e6, 200e6), vco_margin=vm, clkin_freq=ci)
+          for ci in (100e6, 50e6) for vm in (0, 0.1)]),
     ]
     for fname, cname, solutions, verify, grid, attrsets in models:
         m = ctx.mod(D + fname)
@@ -1083,10 +1095,10 @@ def run(ctx):
     ctx.rule("G17", "Lattice NX oscillator: compute_divisor returns a divider of the declared range that meets the request within its "
                     "margin, and refuses exactly when none does (divider 0 included) -- by interpretation against a brute-force search", min_sites=3)
     _g17(ctx)
-    ctx.rule("G18", "search routines by value: compute_config of XilinxClocking (inherited by every Xilinx PLL / MMCM class) and iCE40PLL "
-                    "interpreted on model primitives with small ranges and compared with the checker's own enumeration of "
+    ctx.rule("G18", "search routines by value: compute_config of XilinxClocking (inherited by every Xilinx PLL / MMCM class), iCE40PLL and "
+                    "IntelClocking interpreted on model primitives with small ranges and compared with the checker's own enumeration of "
                     "the whole space: returned settings recomputed from their multipliers / dividers meet every request within its margin "
-                    "inside the ranges and the VCO window; refusal only when the enumeration is empty", min_sites=6)
+                    "inside the ranges and the VCO window; refusal only when the enumeration is empty", min_sites=9)
     _g18(ctx)
     ctx.rule("G19", "Gowin GW1N on-chip oscillator: for every part of the frozen device table the emitted FREQ_DIV, applied to that part's "
                     "oscillator frequency (210 MHz for the -4 family incl. GW1NRF-4B, 250 MHz otherwise), meets the request; refusal only "
